@@ -668,10 +668,59 @@ def _symlink_load_spellings(target: str, fname: str) -> list[tuple[str, str, str
     out.append(("symlinked-model-file", parent, f"{name}/ln_{fname}", True))
     out.append(("symlinked-model-file", target, f"ln_{fname}", True))
     if fname == "m.onnx":
-        # a symlink to the model in another directory: which directory is "the model's" is a
-        # convention question (path as given vs. file opened) -> not judged
-        out.append(("symlinked-model-file-other-dir", "", f"outside/ln_m_{'B' if is_b else 'sub'}.onnx", False))
+        # a static symlink in outside/ to the model written into the target directory.  The
+        # model's directory is the directory holding the directory entry the caller named, here
+        # outside/ (gen_load_case sets spec["model_dir"]); the tensors' locations are still drawn
+        # from the target's grammar, the truth is computed against outside/.
+        out.append(("symlinked-model-file-other-dir", "", f"outside/ln_m_{'B' if is_b else 'sub'}.onnx", True))
     return out
+
+
+# Model FILE reached through a symbolic link that lives in the model directory and points into
+# another directory (content-addressed cache layouts: snapshot/model.onnx -> ../blobs/<hash>).
+# The model's directory stays the directory of the link.  Blob directories with same-named decoy
+# data files (data.bin / inner.bin / other.bin exist in outside/ and work/B_evil/) make a read
+# anchored at the blob's directory observable; the others make it fail or hit another file.
+LINK_BLOB_DIRS = {  # target -> [(class, directory of the real model file)]
+    "work/B": [("other-dir", "outside"), ("other-dir", "outside"), ("other-dir", "work/B_evil"),
+               ("other-dir", "work/B_evil"), ("child-dir", "work/B/sub"), ("parent-dir", "work")],
+    "work/B/sub": [("other-dir", "outside"), ("other-dir", "outside"), ("other-dir", "work/B_evil"),
+                   ("other-dir", "work/B_evil/sub"), ("child-dir", "work/B/sub/deep"), ("parent-dir", "work/B")],
+}
+LINK_HOP_DIRS = ["outside/sub", "work/B_evil", "work", "work/B/sub_evil"]
+# spellings of the target directory itself through a directory symlink: the link's destination
+# is then a file of the model directory and every definition of "the model's directory" agrees
+LINK_SAME_DIR_VIA = {"work/B": ["work/Blink", "outside/ln_back", "work/B/ln_self"],
+                     "work/B/sub": ["work/B/ln_in_dir", "work/Blink/sub", "outside/ln_to_Bsub"]}
+
+
+def gen_model_link(rng, target: str, fname: str) -> dict:
+    """Describe a chain  $R/<target>/<link name> -> [hop ->] real model file  (all names start
+    with "m." so that location walks never pick them).  -> spec["link"]."""
+    ext = os.path.splitext(fname)[1]
+    name = "m.lnk" + ext
+    if rng.random() < 0.15:
+        cls, blob_dir = "same-dir-via-dirlink", target
+        via = rng.choice(LINK_SAME_DIR_VIA[target])
+    else:
+        cls, blob_dir = rng.choice(LINK_BLOB_DIRS[target])
+        via = blob_dir
+    blob_name = "m.blob" + rng.choice(["", "", ext, "-0123abcd"])
+    chain = [[target, name]]
+    if rng.random() < 0.25:
+        chain.append([rng.choice([d for d in LINK_HOP_DIRS if d not in (target, blob_dir)]), "m.hop" + ext])
+    texts = []
+    for i, (d, _n) in enumerate(chain):
+        nd, nn = (chain[i + 1] if i + 1 < len(chain) else (via, blob_name))
+        dest = f"{nd}/{nn}"
+        r = rng.random()
+        if r < 0.6:
+            texts.append(os.path.relpath(dest, d))  # relative to the (real) directory of the link
+        elif r < 0.7:
+            texts.append("./" + os.path.relpath(dest, d).replace("/", "//", 1))
+        else:
+            texts.append("$R/" + dest)
+    return {"class": cls, "name": name, "chain": chain, "texts": texts, "blob": [blob_dir, blob_name]}
 
 
 def gen_tensor_params(rng) -> dict:
